@@ -54,14 +54,20 @@ def build_world(lang):
     zw = TP('W', INV, None)
     zx = TP('X', INV, Cv.get_type().new([zw]))
     Z3 = cls('Z3', [zw, zx, TP('Y', INV, Cv.get_type().new([zx]))])     # chain of parameterized bounds
+    n1 = TP('T1', INV, None)
+    N2 = cls('N2', [n1, TP('T2', INV, Cv.get_type().new([Cv.get_type().new([n1])]))])      # T1 mentioned only nested
+    w1 = TP('T1', INV, None)
+    N3 = cls('N3', [w1, TP('T2', INV, Cv.get_type().new([tp.WildCardType(w1, OUT)]))])     # ... only under a wildcard
+    SubP = cls('SubP', [TP('X', INV, None)], supers=[P.get_type()])                          # generic class below P
     world = {'factory': f, 'decls': decls, 'roles': {'Any': Any, 'Number': Number, 'Integer': Integer, 'String': String},
-             'generic': ['A', 'B', 'Cv', 'Kc', 'E', 'F', 'H', 'G2', 'M', 'Z3', 'Con3']}
+             'generic': ['A', 'B', 'Cv', 'Kc', 'E', 'F', 'H', 'G2', 'M', 'Z3', 'Con3', 'N2', 'N3']}
     base = [Number, Integer, String, P, Q]
     pools = {
         'builtins+simple': base,
         'with-generic-decls': base + [A, Cv],
         'with-unusable': base + [AbsP, Iface, A.get_type(), Kc],
         'tiny': [Integer, Q],
+        'with-generic-subclass': [Integer, P, Q, SubP],
     }
     if lang == 'java':
         pools['with-primitives'] = [f.get_integer_type(primitive=True) if _takes_primitive(f) else Integer,
@@ -243,6 +249,11 @@ def judge_leaf(world, d, pre, vc_in, switches, result, for_function):
         # projections inside a nested instantiation the helper built itself
         if inner_t is not None and not (p in pre):
             nested = _nested_projections(inner_t)
+            # a projection the caller pre-assigned to a parameter this parameter's bound mentions arrives here by
+            # substitution into the bound (T2 : Cv<Cv<T1>>, T1 := out Number): inherited, not introduced
+            if p.bound is not None and nested:
+                bvars = _vars(cv.term(p.bound))
+                nested = nested - {qa[0] for q, qa in zip(ps, targs) if q in pre and qa[0] != 't' and q.name in bvars}
             usv, contra = switches
             if nested:
                 if vc_in is None:
@@ -382,7 +393,7 @@ def run(tier, seed, jobs):
     res = Result(PROP, tier, seed, level='model_checking')
     cap = 4000 if tier == 'quick' else 40000
     langs = ('kotlin', 'java') if tier == 'quick' else ('kotlin', 'java', 'groovy', 'scala')
-    names = ['A', 'B', 'Cv', 'Kc', 'E', 'F', 'H', 'G2', 'M', 'Z3', 'Con3']
+    names = ['A', 'B', 'Cv', 'Kc', 'E', 'F', 'H', 'G2', 'M', 'Z3', 'Con3', 'N2', 'N3']
     tasks = [(lang, [n], cap) for lang in langs for n in names]
     tasks = common.rotate(tasks, seed)
     found, stats = {}, {}
